@@ -7,9 +7,9 @@ CONSTANTS
   KdfUsesTime = TRUE
   Coordinated = FALSE
   TearDown = FALSE
-  ReHandshakes = 0
+  ReHandshakes = 1
   IgnoreReHandshakeWhileOpen = FALSE
-INVARIANTS Reach_BothRotatedEqually
+INVARIANTS Reach_ReHandshakeAfterDrift
 VIEW View
 CONSTRAINT Bound
 CHECK_DEADLOCK FALSE
